@@ -81,6 +81,7 @@ type vCard struct {
 	stopped      int
 	releasedTot  int64
 	trailerCalls int
+	realClock    bool // time stamps from the wall clock (free-running workloads), not from the byte count
 }
 
 type vCardFault struct {
@@ -236,6 +237,9 @@ func (k *vCard) AvailableBuffer() ([]byte, time.Time, error) {
 	out := make([]byte, len(k.window))
 	copy(out, k.window)
 	tf := k.t0.Add(time.Duration(float64(k.produced) * k.bytePer))
+	if k.realClock {
+		tf = time.Now()
+	}
 	return out, tf, nil
 }
 
